@@ -28,6 +28,13 @@ HARNESSES = [{"name": "main", "src": "harness.cpp", "compiler": _PCXX,
              # representation types of either signedness and of 8..64 bits (ops u_*): own source file, own variant
              {"name": "urep", "src": "harness_u.cpp", "compiler": _PCXX,
               "flags": ["-O0", "-DTETL_ENABLE_CONTRACT_CHECKS=1", "-DC12_NPARTS=4"], "args": ["--nofork"]},
+             # thorough only: the urep harness under UBSan (trap mode): every u_* case must run trap-free (the generator
+             # filters undefined behaviour with a mirror of the model) and the uub_* cases must trap exactly where the
+             # model says Ub (signed overflow in int / long after integral promotion, division by zero)
+             {"name": "urep_ubsan", "src": "harness_u.cpp", "compiler": _PCXX, "thorough_only": True,
+              "flags": ["-O0", "-DTETL_ENABLE_CONTRACT_CHECKS=1", "-DC12_NPARTS=4", "-DC12_UBSAN=1",
+                        "-fsanitize=signed-integer-overflow,integer-divide-by-zero", "-fsanitize-undefined-trap-on-error"],
+              "env": {"C12_UB_LEG": "1"}},
              # thorough only: UBSan in trap mode, one supervised child (a trap = "crash 4"); executes the "ub_*" cases
              # (inputs on which the model says Ub) and re-runs every in-domain case under the sanitizer
              {"name": "ubsan", "src": "harness.cpp", "compiler": _PCXX, "thorough_only": True,
@@ -263,6 +270,23 @@ def float_source_cases(P, rng, quick):
                 out.append(f"{h('d_scalar')} {c} {dbits(y)}")
     for t in (1, -2, 1000):   # equal values c * n1/d1 == y * n2/d2
         out.append(f"{h('d_mixed')} {t * P.cd} {dbits(float(t * P.cn))}")
+    # whole-valued counts (the domain of the theorems about + - < == on double durations): small values, equal
+    # values, neighbours, values near 2^53 / factor; and a few fractional ones (spec leg na)
+    lim1 = (2**53 // P.f1) if P.common_ok else 0
+    lim2 = (2**53 // P.f2) if P.common_ok else 0
+    w1 = [0, 1, -1, 7, -60, 1000, 86399, -2500, lim1 // 2, -(lim1 // 3), rng.randint(-10**6, 10**6)]
+    w2 = [0, 1, -1, 3, 59, -1000, 30000, lim2 // 2, -(lim2 // 3), rng.randint(-10**6, 10**6)]
+    if quick:
+        w1, w2 = w1[::3], w2[::3]
+    wp = [(a, b) for a in w1 for b in w2] + [(t * P.cd + e1, t * P.cn + e2) for t in ((1, -3) if quick else (0, 1, -3, 1000))
+                                            for e1 in (-1, 0, 1) for e2 in (-1, 0, 1)]
+    for (a, b) in wp:
+        if abs(a) <= 2**53 and abs(b) <= 2**53:
+            out.append(f"{h('d_pm')} {dbits(float(a))} {dbits(float(b))}")
+            out.append(f"{h('d_mpm')} {a} {dbits(float(b))}")
+    for (x, y) in [(1.5, 2.0), (0.1, -3.0), (2.0**52 + 0.5, 1.0)]:
+        out.append(f"{h('d_pm')} {dbits(x)} {dbits(y)}")
+        out.append(f"{h('d_mpm')} 7 {dbits(x)}")
     return out
 
 
@@ -467,7 +491,7 @@ def gen_urep(tier, rng):
     out = []
     quick = tier == "quick"
     z = "0 0 0 1 1 64 1 1 64"
-    for t in ("u_pq", "u_pqovf", "u_ctor", "u_lcmwrap"):
+    for t in ("u_pq", "u_pqovf", "u_ctor", "u_lcmwrap", "u_spaceship"):
         out.append(f"{t} {z}")
     # float / long double representations (compared with std::chrono inside the harness): values whose images stay far
     # inside int64 (a float -> int64 conversion out of range is undefined)
@@ -550,6 +574,30 @@ def gen_urep(tier, rng):
                             out.append(f"{h('u_rnd4')} {c}")
                         elif no_ub(ucast, A, B, c):
                             out.append(f"{h('u_cast')} {c}")
+                    # ---- undefined behaviour (thorough tier, UBSan variant): the model says Ub exactly here
+                    if not quick:
+                        rc_ = common_rep(r1, r2)
+                        big1 = [rmax(r1), rmin(r1), rmax(r1) // 2 + 1, rmin(r1) // 2 - 1, 1, 0, -1 if r1 > 0 else 2, 65535, 46341]
+                        big2 = [rmax(r2), rmin(r2), rmax(r2) // 2 + 1, rmin(r2) // 2 - 1, 1, 0, -1 if r2 > 0 else 2, 65535, 46341]
+                        for c1 in big1:
+                            for c2 in big2:
+                                if not (in_r(r1, c1) and in_r(r2, c2)):
+                                    continue
+                                # only operands that convert to the common type without undefined behaviour
+                                if not (no_ub(ubin, '<', A, B, c1, c2)):
+                                    continue
+                                for o, nm in (('+', 'uub_plus'), ('-', 'uub_minus'), ('/', 'uub_div'), ('/', 'uub_mod')):
+                                    if not no_ub(ubin, o, A, B, c1, c2):
+                                        out.append(f"{h(nm)} {c1} {c2}")
+                                if i == j or (a, b) in USEL:
+                                    S = UDur(rc_, N1, D1)
+
+                                    def scu(c=c1, x=c2):
+                                        y = uconv(A, S, c)
+                                        binop('*', S.r, r2, y, x)
+                                        binop('/', S.r, r2, y, x)
+                                    if not no_ub(scu) and no_ub(uconv, A, S, c1):
+                                        out.append(f"{h('uub_scalar')} {c1} {c2}")
                     # one type: member operators, abs
                     if i == j and a == b:
                         r = r1
